@@ -105,7 +105,7 @@ Example short_list_hyp : is_replication 103002 = true /\ (103002 mod 1000 =? 0)%
 Proof. vm_compute. repeat split. lia. Qed.
 
 Example delayed_at_end_nested : (* the inner 101000 finds its allowance used up: no factor *)
-  build B33 (lookup_d B33 D33) [101001; 101000; 31001; 1001]%N = Err EStopIter.
+  build B33 (lookup_d B33 D33) [101001; 101000; 31001; 1001]%N = Err ELib.
 Proof. vm_compute. reflexivity. Qed.
 
 Example nested_limit : (* 102002 owns 101000 and its factor; 101000 gets no members, silently *)
